@@ -282,6 +282,7 @@ def run(ctx: Ctx) -> Result:
 
     res = run_shards(ctx, shard, list(range(nshards)))
     res.merge(typing_named_family())
+    res.merge(defaults_family(ctx.quick))
     res.obligations.setdefault("saw:typed-dict-class", False)
     res.obligations.setdefault("saw:nontotal", False)
     res.obligations.setdefault("saw:StubIndexBuilder", False)
@@ -339,8 +340,57 @@ def typing_named_family() -> Result:
     return res
 
 
+def defaults_one(ai: int, bi: int, bidx: int):
+    """tgt.fd8(x8=None) / fd9(x9=0) / fd10(*, x10=None), each stubbed ALONE (no other parameter or function can provide an
+    import): a parameter whose default is None is rendered Optional[T] (also for T = Any and for T already optional), and
+    whatever the rendering uses is imported."""
+    from monkeytype.tracing import CallTrace
+    import tgt
+
+    cls, bs = classes(), builders() + [("Any", lambda a, b, u="": Any), ("ListAny", lambda a, b, u="": List[Any])]
+    bn, b = bs[bidx]
+    T = b(cls[ai], cls[bi], "d")
+    vs = []
+    for pname in ("x8", "x9", "x10"):
+        fn = getattr(tgt, "fd" + pname[1:])
+        tr = CallTrace(fn, {pname: T}, None, None)
+        want = T if pname == "x9" else (T if (T is NoneT or (getattr(T, "__origin__", None) is Union and NoneT in T.__args__)) else Optional[T])
+        BN[(((), fn.__name__), pname)] = bn
+        try:
+            text = build([tr])["tgt"]
+        except Exception as e:  # noqa: BLE001
+            vs.append(("exception", "default-none-parameter:" + type(e).__name__, f"building/rendering raised {e!r}", ""))
+            continue
+        tag = "default-none-parameter" if pname != "x9" else "defaulted-parameter"
+        vs += [(k, tag if not s_.startswith("typed-dict") else s_, f"{pname} ({bn}): " + m, text) for k, s_, m in check_stub(text, "tgt", tgt, [(((), fn.__name__), {pname: want}, None)], tag)]
+    return vs
+
+
+def defaults_family(quick: bool) -> Result:
+    res = Result()
+    cls, nb = classes(), len(builders()) + 2
+    pairs = [(0, 1), (3, 0), (len(cls) - 1, 2)] if quick else [(a, (a + 1) % len(cls)) for a in range(len(cls))]
+    for ai, bi in pairs:
+        for bidx in range(nb):
+            res.states += 1
+            res.transitions += 3
+            res.evaluations += 3
+            res.validated += 3
+            case = {"family": "defaults", "a": ai, "b": bi, "builder": bidx}
+            vs = defaults_one(ai, bi, bidx)
+            for kind, sig, msg, text in vs[:2]:
+                res.violate(Violation(ID, kind, sig, case, msg + "\n--- stub ---\n" + text[:1200]))
+            if not vs:
+                res.nontrivial_n += 1
+                res.oblige("saw:default-none-parameter", True)
+    res.obligations.setdefault("saw:default-none-parameter", False)
+    return res
+
+
 def replay(case: Dict[str, Any], ctx: Ctx) -> List[Violation]:
     setup_path()
+    if case.get("family") == "defaults":
+        return [Violation(ID, k, s, case, m) for k, s, m, _ in defaults_one(case["a"], case["b"], case["builder"])]
     if case.get("family") == "typing_named":
         return [Violation(ID, k, s, case, m) for k, s, m, _ in typing_named_one(case["class"], case["form"])]
     cls, bs, tgs = classes(), builders(), targets()
